@@ -95,4 +95,10 @@ func deepEqT(x, y value, depth int) *smt.Term {
 
 func init() {
 	externals["reflect.DeepEqual"] = func(fr *frame, a []value) value { return mkSym(deepEqT(a[0], a[1], 0), types.Bool) }
+	// apiequality.Semantic.DeepEqual: reflection-based; structural equality on interpreter values
+	// (the semantic equalities registered for Quantity/Time compare by value, which the structural
+	// comparison of canonical values also does for the concrete-shape values used here)
+	externals["(k8s.io/apimachinery/third_party/forked/golang/reflect.Equalities).DeepEqual"] = func(fr *frame, a []value) value {
+		return mkSym(deepEqT(a[1], a[2], 0), types.Bool)
+	}
 }
